@@ -33,10 +33,11 @@ class Realization(SymError):
 # context
 # ----------------------------------------------------------------------------------------------
 class Atom:
-    __slots__ = ("id", "name", "kind", "z3", "info", "evalf")
+    __slots__ = ("id", "name", "kind", "z3", "info", "evalf", "scoped")
 
     def __init__(self, id, name, kind, z3v, info=None, evalf=None):
         self.id, self.name, self.kind, self.z3, self.info, self.evalf = id, name, kind, z3v, info, evalf
+        self.scoped = None   # constraints that hold only where the atom is used (domain assumptions), re-added per path
 
 
 class Ctx:
@@ -56,12 +57,33 @@ class Ctx:
         self.explorer = None
         self.fresh_counter = 0
         self.rng_log = []
+        self.abs_fork = False
         self.events = []
 
     # -- atoms ---------------------------------------------------------------------------------
+    def scope(self, atom, constraints=None):
+        """domain assumptions of a partial operation (sqrt radicand >= 0, divisor != 0) hold on the paths that
+        perform the operation, not globally: they go to the path condition (or to `assume` outside explore)."""
+        if constraints is not None:
+            atom.scoped = list(constraints)
+        if not atom.scoped:
+            return
+        ex = self.explorer
+        if ex is not None:
+            if atom.id not in ex.active:
+                ex.active.add(atom.id)
+                ex.pc.extend(atom.scoped)
+        else:
+            if ("scoped", atom.id) not in self.by_key:
+                self.by_key[("scoped", atom.id)] = True
+                self.assume.extend(atom.scoped)
+
     def new_atom(self, name, kind="var", key=None, info=None, evalf=None):
         if key is not None and key in self.by_key:
-            return self.by_key[key]
+            a = self.by_key[key]
+            if a.scoped:
+                self.scope(a)
+            return a
         aid = len(self.atoms)
         a = Atom(aid, name, kind, z3.Real(f"{name}#{aid}" if kind != "var" else name), info, evalf)
         self.atoms.append(a)
@@ -302,6 +324,10 @@ class Poly:
             ms = "*".join(names[i].name if names else f"a{i}" for i in m)
             parts.append(f"{c}" + ("*" + ms if ms else ""))
         return " + ".join(parts)
+
+
+def _sum_of_squares(p):
+    return all(c > 0 and all(m.count(i) % 2 == 0 for i in set(m)) for m, c in p.t.items())
 
 
 ZERO = Poly({})
@@ -551,9 +577,9 @@ class Sym:
             p = self.re
             a.evalf = lambda vals, p=p: 1 / p.evalf(vals)
             # t * x = 1 (division by zero is outside the model: numpy would give inf/nan)
-            c.side.append((Poly.atom(a.id) * self.re).to_z3(c) == 1)
-            c.side.append(self.re.to_z3(c) != 0)
-            c.stubs.add("division: t = 1/x modelled as t*x = 1, x != 0")
+            c.scope(a, [(Poly.atom(a.id) * self.re).to_z3(c) == 1, self.re.to_z3(c) != 0])
+            rew = c.by_key.setdefault("rewrites", {})
+            c.stubs.add("division: t = 1/x modelled as t*x = 1 with x != 0 assumed on the paths that divide")
         return Sym(Poly.atom(a.id))
 
     def __truediv__(self, o):
@@ -619,10 +645,13 @@ class Sym:
             rew = c.by_key.setdefault("rewrites", {})
             rew[a.id] = self.re
             c.side.append(a.z3 >= 0)
-            c.side.append(self.re.to_z3(c) >= 0)  # real sqrt: the radicand is non-negative
+            sc = []
+            if not _sum_of_squares(self.re):
+                sc.append(self.re.to_z3(c) >= 0)  # real sqrt: the radicand is non-negative on the paths that take the root
             if c.mode == "nra":
-                c.side.append(a.z3 * a.z3 == self.re.to_z3(c))
-            c.stubs.add("sqrt(x): symbol s >= 0 with s*s rewritten to x (x >= 0 assumed, as numpy would return nan otherwise)")
+                sc.append(a.z3 * a.z3 == self.re.to_z3(c))
+            c.scope(a, sc)
+            c.stubs.add("sqrt(x): symbol s >= 0 with s*s rewritten to x; x >= 0 assumed on the paths that take the root (numpy would return nan)")
         return Sym(Poly.atom(a.id))
 
     def __abs__(self):
@@ -632,6 +661,8 @@ class Sym:
             if isinstance(v, complex):
                 return Sym(Poly.const(Fraction(v.real) ** 2 + Fraction(v.imag) ** 2)).sqrt()
             return Sym(Poly.const(abs(v)))
+        if not self.im.t and getattr(c, "abs_fork", False) and c.explorer is not None:
+            return self if bool(self >= 0) else -self
         if not self.im.t:
             # normalise sign so that |x| and |-x| share the atom
             k = self.re.key()
@@ -859,6 +890,7 @@ class Explorer:
         self.pos = 0
         self.pc = []
         self.pending = []
+        self.active = set()
         self.feas_timeout_ms = feas_timeout_ms
         self.prune = prune
         self.unknown_branches = 0
